@@ -62,6 +62,7 @@ class Ctx:
         self.scratch = tempfile.mkdtemp(prefix="verif_%s_" % pid, dir=os.environ.get("VERIF_SCRATCH", "/var/tmp"))
         self.t0 = time.time()
         self.notes = []
+        self.problems = []     # set-up problems reported by property modules (make the run inconclusive)
 
     def cleanup(self):
         shutil.rmtree(self.scratch, ignore_errors=True)
@@ -357,7 +358,7 @@ def run_property(ctx, mod):
     t_run = time.time() - ctx.t0 - t_prep
     if os.environ.get("VERIF_TIMING"):
         print("timing: prep %.1fs run %.1fs; slowest shards: %s" % (t_prep, t_run, sorted(ctx.shard_walls, reverse=True)[:8]))
-    lines, violations, known_hits, inconclusive, spurious = [], [], [], [], 0
+    lines, violations, known_hits, inconclusive, spurious = [], [], [], list(ctx.problems), 0
     replay_dir = os.path.join(VERIF, "evidence", "replay", pid)
     if os.path.isdir(replay_dir):
         shutil.rmtree(replay_dir)
